@@ -117,7 +117,7 @@ def _cvc5(smt, timeout_s):
 
 def solve_all(obligations, timeout_s=10, jobs=None, use_cvc5=True, extra_axioms=(), cross_check=False):
     """returns dict name -> (verdict, backend, seconds, model)"""
-    jobs = jobs or min(16, os.cpu_count() or 1)
+    jobs = jobs or int(os.environ.get('PYVC_JOBS', '0') or 0) or min(16, os.cpu_count() or 1)
     tasks = []
     seen = {}
     for ob in obligations:
